@@ -259,7 +259,12 @@ def mutators(ctx):
                       for g, b in F.frames(fi, 1)
                       if g.cls is ci and g.node.name not in DICT_MUTATORS
                       or g is fi
-                      for t, v, n in F.stores(g, b))
+                      for t, v, n in F.stores(g, b)) or any(
+            has(e.recv(), 'self', 'changes') or has(e.recv(), 'self',
+                                                    '_changes')
+            for e in F.effects(fi, lambda e: e.name in (
+                'update', 'setdefault', '__setitem__') and
+                e.fn.cls is ci, depth=1))
         deleg = set()
         for g in F.reach(fi, 1):
             if g.cls is not ci and g is not fi:
@@ -775,7 +780,7 @@ def load_only(ctx):
     ok = bool(rl) and all(
         param_of(e.recv(), 'env') and any(
             pos and param_of(F.atoms(t, f_, b_), 'regenerating')
-            for t, pos, f_, b_ in F.guard_leaves(e.call, e.fn))
+            for t, pos, f_, b_ in F.guard_leaves(e.call, e.fn, e.bind))
         for e in rl)
     setp = [n for t, v, n in F.stores(lt)
             if has(t, 'toolchain', 'path') and param_of(v, 'path')]
